@@ -85,6 +85,49 @@ type ndRun struct {
 	ctx         context.Context
 	roots       map[string]node.Root // root id -> real root
 	extraListed int
+	noisy       bool // batches also carry net no-ops (see ndNoise)
+}
+
+// ndNoise adds operations without net effect to a batch built on a parent root: remove + re-insert of an unchanged key,
+// overwrite with a temporary value and back, insert + remove of a key outside the model's universe.  The contents the
+// batch commits are unchanged; what the databases record about the batch (updated-node indices, write logs) is not.
+func (r *ndRun) ndNoise(t mkvs.Tree, op *ndOp) error {
+	after := map[string]string{}
+	for _, p := range op.C {
+		after[string(p[0])] = string(p[1])
+	}
+	form := int(op.V) + len(op.Writes)
+	for _, p := range op.PC {
+		if v, ok := after[string(p[0])]; !ok || v != string(p[1]) {
+			continue // the batch changes this key itself
+		}
+		val := []byte(p[1])
+		if val == nil {
+			val = []byte{}
+		}
+		switch form % 3 {
+		case 0:
+			if err := t.Remove(r.ctx, p[0]); err != nil {
+				return err
+			}
+			if err := t.Insert(r.ctx, p[0], val); err != nil {
+				return err
+			}
+		case 1:
+			if err := t.Insert(r.ctx, p[0], []byte("tmp-value")); err != nil {
+				return err
+			}
+			if err := t.Insert(r.ctx, p[0], val); err != nil {
+				return err
+			}
+		}
+		form++
+	}
+	phantom := []byte{0xee, 0x01}
+	if err := t.Insert(r.ctx, phantom, []byte{1}); err != nil {
+		return err
+	}
+	return t.Remove(r.ctx, phantom)
 }
 
 type ndFail struct {
@@ -112,6 +155,11 @@ func (r *ndRun) applyOp(op *ndOp) *ndFail {
 			t = mkvs.NewWithRoot(nil, r.ndb, pr)
 		}
 		defer t.Close()
+		if r.noisy && op.Parent != "empty" {
+			if err := r.ndNoise(t, op); err != nil {
+				return ndFailf("error", "no-op writes on candidate: %v", err)
+			}
+		}
 		for _, w := range op.Writes {
 			var err error
 			if w.Del {
@@ -326,6 +374,7 @@ type ndMismatch struct {
 	Fail     *ndFail  `json:"fail"`
 	Steps    []ndStep `json:"steps"`
 	Shape    string   `json:"shape"`
+	Noisy    bool     `json:"noisy_batches"`
 }
 
 // ndShape names the history shape of a failure (used to match known findings narrowly).
@@ -398,13 +447,13 @@ func ndSharesKV(b *ndBehaviour, i int) bool {
 	return false
 }
 
-func ndRunBehaviour(b *ndBehaviour, backend, dir string) (*ndMismatch, int) {
+func ndRunBehaviour(b *ndBehaviour, backend, dir string, noisy bool) (*ndMismatch, int) {
 	ndb, err := openNodeDB(backend, dir)
 	if err != nil {
 		return &ndMismatch{Backend: backend, Fail: ndFailf("error", "open: %v", err)}, 0
 	}
 	defer ndb.Close()
-	r := &ndRun{backend: backend, ndb: ndb, ctx: context.Background(), roots: map[string]node.Root{}}
+	r := &ndRun{backend: backend, ndb: ndb, ctx: context.Background(), roots: map[string]node.Root{}, noisy: noisy}
 	n := 0
 	for i := range b.Steps {
 		n++
@@ -430,6 +479,7 @@ func nodedbReplay(args []string) int {
 	out := fs.String("out", "-", "summary JSON")
 	every := fs.Int("every", 1, "replay only every k-th behaviour")
 	gated := fs.Bool("gated", false, "run a full reader at every durable-write point of every operation (hook H1)")
+	noise := fs.String("noise", "alt", "batches with net no-op writes: off | alt (every second behaviour) | both (every behaviour is run plain and noisy)")
 	fs.Parse(args)
 	r, err := openIn(*in)
 	if err != nil {
@@ -466,6 +516,7 @@ func nodedbReplay(args []string) int {
 				}
 				mu.Lock()
 				nBeh++
+				myIdx := nBeh
 				for i := range b.Steps {
 					opCounts[b.Steps[i].Op.A]++
 				}
@@ -499,7 +550,17 @@ func nodedbReplay(args []string) int {
 						}
 						mu.Unlock()
 					} else {
-						m, n = ndRunBehaviour(&b, be, "")
+						m, n = ndRunBehaviour(&b, be, "", *noise == "alt" && myIdx%2 == 1)
+						if m == nil && *noise == "both" {
+							var n2 int
+							m, n2 = ndRunBehaviour(&b, be, "", true)
+							n += n2
+							if m != nil {
+								m.Noisy = true
+							}
+						} else if m != nil {
+							m.Noisy = *noise == "alt" && myIdx%2 == 1
+						}
 					}
 					mu.Lock()
 					nRuns++
